@@ -36,6 +36,19 @@ type CNSRes struct {
 	Ops        int
 	Overlaps   int // operations that overlapped an operation of another client
 	Rejected   int // concurrent requests whose transaction the journal rejected
+	Observed   int // observer listings that showed the effect of an operation still in flight or just acknowledged
+}
+
+// cnsObs: a READDIRPLUS of one client's directory by an observer.  Namespace
+// operations are acknowledged with stable semantics, so a reply that shows
+// the effect of an operation proves that it is durable: an observation acts
+// like a stable acknowledgement for everything it shows.
+type cnsObs struct {
+	client  int
+	callPos int
+	retPos  int
+	names   map[string]string // name -> handle (hex; "" if the reply carried none)
+	jmin    int               // smallest prefix of the client's sequence that shows exactly this listing (-1: none)
 }
 
 type cnsOp struct {
@@ -183,7 +196,45 @@ func oneCNS(seed uint64, res *CNSRes, h, cas int) {
 			}
 		}()
 	}
+	var observations []*cnsObs
+	stopObs := make(chan struct{})
+	obsDone := make(chan struct{})
+	go func() {
+		defer close(obsDone)
+		mon.SetClient(nc + 2)
+		or := rng.Sub(4242)
+		for k := 0; k < 400; k++ {
+			select {
+			case <-stopObs:
+				return
+			default:
+			}
+			c := or.Intn(nc)
+			ob := &cnsObs{client: c, names: map[string]string{}, jmin: -1}
+			ob.callPos = d.Mark(EvCall, 1<<20+k)
+			r := doOp(srv.API, &Op{K: OpReaddirplus, H: dirs[c], Count: 1 << 20, Dircount: 1 << 20})
+			ob.retPos = d.Mark(EvRet, 1<<20+k)
+			if r.Stat != stOK {
+				continue
+			}
+			for _, e := range r.Ents {
+				if e.Name == "." || e.Name == ".." {
+					continue
+				}
+				h := ""
+				if e.HasFH {
+					h = fmt.Sprintf("%x", e.FH)
+				}
+				ob.names[e.Name] = h
+			}
+			mu.Lock()
+			observations = append(observations, ob)
+			mu.Unlock()
+		}
+	}()
 	wg.Wait()
+	close(stopObs)
+	<-obsDone
 	srv.WaitIdle()
 	srv.Flush()
 	trace := d.StopRecording()
@@ -213,6 +264,41 @@ func oneCNS(seed uint64, res *CNSRes, h, cas int) {
 			res.Sample = append(res.Sample, fmt.Sprintf("client %d [call@%d ret@%d] %s", rec.client, rec.callPos, rec.retPos, rec.desc))
 		}
 	}
+	// which prefix of its client's sequence does each observation show?
+	for _, ob := range observations {
+		c := ob.client
+		klo, khi := 0, 0
+		for k, rec := range per[c] {
+			if rec.retPos >= 0 && rec.retPos < ob.callPos {
+				klo = k + 1
+			}
+			if rec.callPos < ob.retPos {
+				khi = k + 1
+			}
+		}
+		for k := klo; k <= khi && k < len(snaps[c]); k++ {
+			m := snaps[c][k]
+			root := m.Objs[m.Root]
+			if len(root.Ents) != len(ob.names) {
+				continue
+			}
+			same := true
+			for n, id := range root.Ents {
+				h, ok := ob.names[n]
+				if !ok || (h != "" && m.Objs[id].FH != nil && h != fmt.Sprintf("%x", m.Objs[id].FH)) {
+					same = false
+					break
+				}
+			}
+			if same {
+				ob.jmin = k
+				break
+			}
+		}
+		if ob.jmin > klo {
+			res.Observed++
+		}
+	}
 	// ---- cuts ----------------------------------------------------------------
 	it := NewCutIter(size, base, trace)
 	lrng := rng.Sub(77)
@@ -227,7 +313,11 @@ func oneCNS(seed uint64, res *CNSRes, h, cas int) {
 		switch e.Kind {
 		case EvRet:
 			take = true
-			desc = fmt.Sprintf("cut %d right after the reply to client %d's %s", it.pos, all[e.Addr].client, all[e.Addr].desc)
+			if e.Addr >= 1<<20 {
+				desc = fmt.Sprintf("cut %d right after the reply to an observer's READDIRPLUS", it.pos)
+			} else {
+				desc = fmt.Sprintf("cut %d right after the reply to client %d's %s", it.pos, all[e.Addr].client, all[e.Addr].desc)
+			}
 		case EvWrite:
 			nw++
 			take = true
@@ -258,6 +348,12 @@ func oneCNS(seed uint64, res *CNSRes, h, cas int) {
 				if rec.callPos <= cut {
 					hi[c] = k + 1
 				}
+			}
+		}
+		// what an observer was shown before the cut is durable
+		for _, ob := range observations {
+			if ob.jmin > lo[ob.client] && ob.retPos <= cut {
+				lo[ob.client] = ob.jmin
 			}
 		}
 		eval := func(img map[uint64][]byte, kind, idesc string) {
@@ -419,6 +515,7 @@ func cnsJobRes(r *CNSRes) *JobRes {
 	out.Counters["concurrent_mixed_crash_images"] = r.Images
 	out.Counters["concurrent_mixed_lossy_images"] = r.Lossy
 	out.Counters["concurrent_journal_rejected_requests"] = r.Rejected
+	out.Counters["observer_listings_that_pin_a_newer_prefix"] = r.Observed
 	out.Counters["concurrent_mixed_images_nontrivial"] = r.NonTrivial
 	out.Counters["concurrent_mixed_images_where_real_time_order_excluded_a_combination"] = r.CrossBound
 	for k, v := range r.Stats {
